@@ -6,7 +6,7 @@
    (harness c05), not proved.  Statements only; proofs in Proofs/C05_Stroke.v. *)
 From Coq Require Import QArith.
 From LV Require Import Base.Prelude Base.F32 Model.Bezier Gen.Constants Checker.Region Checker.StrokeSpec
-  Proofs.C01_Dist Proofs.C05_Stroke.
+  Proofs.C01_Dist Proofs.C05_Stroke Gen.Functions Proofs.Gen_Functions.
 Open Scope Q_scope.
 
 (* --- the oracle --- *)
@@ -99,6 +99,10 @@ Example C05_edge_triangles_example :
   /\ add_edge_triangles (mkEp 0 0 0 0 false false) (mkEp 0 0 1 1 false false) = [].
 Proof. exact edge_triangles_example. Qed.
 
+(* the miter-limit test of the checker IS stroke.rs's miter_limit_is_exceeded, translated from the source on every run *)
+Theorem C05_miter_limit_is_source : forall n m, src_miter_limit_is_exceeded n m = miter_limit_is_exceeded n m.
+Proof. exact src_miter_limit_is_exceeded_is_model. Qed.
+
 Print Assumptions C05_mesh_ok_sound.
 Print Assumptions C05_within_reach_meaning.
 Print Assumptions C05_edge_triangles_distinct.
@@ -111,3 +115,4 @@ Print Assumptions C05_right_angle_corner.
 Print Assumptions C05_miter_tip_within_limit.
 Print Assumptions C05_clip_corner_reach.
 Print Assumptions C05_clip_corner_within_tip.
+Print Assumptions C05_miter_limit_is_source.
